@@ -33,7 +33,20 @@ type c10Level struct {
 	NoMD   bool   // true: explicitly none (OutMD ignored)
 	InMD   MDSpec `json:",omitempty"` // level 0 only: incoming metadata planted in the caller's context
 	Peer   bool   `json:",omitempty"` // level 0 only: a peer planted in the caller's context
+	// Creds: the call carries per-RPC credentials. "own" = under a key of their own, "collide" = under a key the
+	// caller's outgoing metadata uses too (a gateway relaying the end user's header while authenticating itself):
+	// the handler still sees every value the caller attached, next to the credentials' one
+	Creds string `json:",omitempty"`
 }
+
+const c10CredValue = "cred-value-of-the-call"
+
+type c10Creds struct{ md map[string]string }
+
+func (c c10Creds) GetRequestMetadata(ctx context.Context, uri ...string) (map[string]string, error) {
+	return c.md, nil
+}
+func (c10Creds) RequireTransportSecurity() bool { return false }
 
 type c10Case struct {
 	Levels      []c10Level // level 0 = the outermost caller; each handler makes the next call from its own context
@@ -156,6 +169,11 @@ func propC10(c c10Case) *Outcome {
 	}
 	o := &Outcome{}
 	o.class("depth=%d/interceptor=%v/deadline=%v/cancel=%v", len(c.Levels), c.Interceptor, c.DeadlineNs != 0, c.Cancel)
+	for _, l := range c.Levels {
+		if l.Creds != "" {
+			o.class("per-rpc-credentials=%s", l.Creds)
+		}
+	}
 	nvals := 0
 	anyMD := false
 	for _, l := range c.Levels {
@@ -177,6 +195,8 @@ func propC10(c c10Case) *Outcome {
 	callerCtx := make([]context.Context, len(c.Levels))
 	// sentMD[i] = copy of the outgoing metadata of call i as it was when the call was made
 	sentMD := make([]metadata.MD, len(c.Levels))
+	// credKey[i] = the key under which call i's per-RPC credentials put their value ("" = no credentials)
+	credKey := make([]string, len(c.Levels))
 	var deadline time.Time
 	var makeCall func(level int, base context.Context) error
 
@@ -213,6 +233,21 @@ func propC10(c c10Case) *Outcome {
 		// (3) incoming metadata = the caller's outgoing metadata, nothing else
 		want, hasWant := sentMD[level], sentMD[level] != nil
 		got, hasGot := metadata.FromIncomingContext(ctx)
+		if k := credKey[level]; k != "" {
+			// the credentials' value arrives too; taking it out must leave exactly what the caller attached
+			got = got.Copy()
+			at := -1
+			for i, v := range got[k] {
+				if v == c10CredValue {
+					at = i
+				}
+			}
+			if at < 0 {
+				p.fault("level %d handler: the value of the call's credentials is missing under %q: incoming %v", level, k, got)
+			} else if got[k] = append(got[k][:at:at], got[k][at+1:]...); len(got[k]) == 0 {
+				delete(got, k)
+			}
+		}
 		if !hasWant || len(want) == 0 {
 			if hasGot && len(got) > 0 {
 				p.fault("level %d handler: caller attached no outgoing metadata, handler sees incoming %v", level, got)
@@ -338,13 +373,28 @@ func propC10(c c10Case) *Outcome {
 		// NoMD: nothing is attached at all. (A handler's context never carries outgoing
 		// metadata of an enclosing caller: the value-blocking wrapper hides it.)
 		callerCtx[level] = ctx
+		var copts []grpc.CallOption
+		credKey[level] = ""
+		if l.Creds != "" {
+			k := "zz-cred"
+			if l.Creds == "collide" {
+				for _, kv := range l.OutMD {
+					if attached != nil && !strings.HasSuffix(kv.K, "-bin") && !strings.HasPrefix(kv.K, "grpc-") {
+						k = strings.ToLower(kv.K)
+						break
+					}
+				}
+			}
+			credKey[level] = k
+			copts = append(copts, grpc.PerRPCCredentials(c10Creds{md: map[string]string{k: c10CredValue}}))
+		}
 		var err error
 		if l.Stream {
 			sctx, cancel := context.WithCancel(ctx)
 			defer cancel()
 			callerCtx[level] = sctx
 			var cs grpc.ClientStream
-			cs, err = ch.NewStream(sctx, streamDescOf(kBidi), mBidi)
+			cs, err = ch.NewStream(sctx, streamDescOf(kBidi), mBidi, copts...)
 			if err == nil {
 				if c.MutCaller && attached != nil {
 					// the call has started; the map is the caller's own again
@@ -367,7 +417,7 @@ func propC10(c c10Case) *Outcome {
 				}
 			}
 		} else {
-			err = ch.Invoke(ctx, mUnary, &pb.Message{Count: int32(level)}, new(pb.Message))
+			err = ch.Invoke(ctx, mUnary, &pb.Message{Count: int32(level)}, new(pb.Message), copts...)
 		}
 		if c.Mutate && !l.NoMD && len(l.OutMD) > 0 {
 			// the caller's own view must be intact after the call
@@ -468,6 +518,9 @@ func genC10(t *rapid.T) c10Case {
 				l.NoMD = true
 			}
 		}
+		if rapid.IntRange(0, 3).Draw(t, "creds") == 0 {
+			l.Creds = rapid.SampledFrom([]string{"own", "collide", "collide"}).Draw(t, "credskey")
+		}
 		if i == 0 {
 			if rapid.Bool().Draw(t, "inmd") {
 				l.InMD = genMD(t, "inmd", 2)
@@ -481,7 +534,7 @@ func genC10(t *rapid.T) c10Case {
 
 func init() { registerReplay("C10", propC10) }
 
-const c10Rule = "rapid-generated: 1..3 nesting levels (each in-process handler makes the next call from its own context, so the caller's context carries an enclosing call's incoming metadata, peer, transport stream and client-context key), 0..6 context values per level under string/int/struct/pointer/typed keys, outgoing metadata present or absent per level, incoming metadata and a foreign peer planted in the outermost context, optional deadline, unary or streaming per level, with/without server interceptors, optional cancellation of the outermost caller, optional metadata mutation on both sides; " +
+const c10Rule = "rapid-generated: 1..3 nesting levels (each in-process handler makes the next call from its own context, so the caller's context carries an enclosing call's incoming metadata, peer, transport stream and client-context key), 0..6 context values per level under string/int/struct/pointer/typed keys, outgoing metadata present or absent per level, incoming metadata and a foreign peer planted in the outermost context, optional deadline, unary or streaming per level, with/without server interceptors, optional cancellation of the outermost caller, optional metadata mutation on both sides, optional per-RPC credentials per level under a key of their own or under one the caller's metadata uses too; " +
 	"oracle in every handler: ctx.Value(k) == nil for every key of every enclosing caller; ClientContext(ctx) is the caller's context and yields its values; incoming metadata = caller's outgoing metadata (none => none); peer network inproc; deadline equal to the caller's; ServerTransportStream.Method() is this call's method; cancellation reaches the innermost handler; metadata mutation on one side invisible on the other; " +
 	"also generated since the seeded rounds: callers mutating their metadata map after the call started, grpc-prefixed application keys (grpc-trace-bin, ...), a caller peer with TLS auth info (the handler's peer must stay purely in-process); " +
 	"non-trivial = >=1 caller value and (nested or outgoing metadata present); distinct by case hash"
